@@ -23,11 +23,11 @@ import (
 
 func init() {
 	Register(&Property{
-		ID:   "C09",
-		Run:  runC09,
-		Rule: "runs = 10-60 seeded edits of the energy file (append / rewrite / duplicate timestamp / reorder / malformed / header variants / truncate-then-write) interleaved with client ticks, restarts and sync rounds whose retransmissions cover every stored slot; every acted-on datagram is captured: all datagrams of one slot must be identical and carry the stored first reading; stored readings never change; then 20-60 save/load operations on the history store (slots before the origin, at it, far beyond the file end, at the 32 bit offset wrap, value 0) against a map model; readings that do not fit 32 signed bits are a separate generator class (1 run in 10); non-trivial = a rewritten or duplicated reading was refused and a retransmission happened; distinct = distinct decision signatures",
-		Real: []string{"client energy file reader, history store, send loop, sync round incl. resend loop", "server sync handler"},
-		Stub: []string{"meter firmware (harness edits energy_data.csv)", "UDP (sink: every datagram captured and dropped)"},
+		ID:             "C09",
+		Run:            runC09,
+		Rule:           "runs = 10-60 seeded edits of the energy file (append / rewrite / duplicate timestamp / reorder / malformed / header variants / truncate-then-write) interleaved with client ticks, restarts and sync rounds whose retransmissions cover every stored slot; every acted-on datagram is captured: all datagrams of one slot must be identical and carry the stored first reading; stored readings never change; then 20-60 save/load operations on the history store (slots before the origin, at it, far beyond the file end, at the 32 bit offset wrap, value 0) against a map model; readings that do not fit 32 signed bits are a separate generator class (1 run in 10); non-trivial = a rewritten or duplicated reading was refused and a retransmission happened; distinct = distinct decision signatures",
+		Real:           []string{"client energy file reader, history store, send loop, sync round incl. resend loop", "server sync handler"},
+		Stub:           []string{"meter firmware (harness edits energy_data.csv)", "UDP (sink: every datagram captured and dropped)"},
 		RequiredProbes: []string{"c09.rewrite-refused", "c09.retransmission", "c09.restart", "c09.truncate-then-write", "c09.store.before-origin", "c09.store.far", "c09.store.wrap", "c09.store.different-refused"},
 	})
 }
